@@ -429,6 +429,13 @@ class ExprMixin:
                 if isinstance(x, SV) and x.ty.name == "Ref" and is_str(y) and self.field_info(x.ty.args[0].name, "__str__"):
                     r = ctx.equal(self.field_read(x, "__str__"), y)
                     return r if isinstance(op, ast.Eq) else self._not(r)
+        if isinstance(op, (ast.Eq, ast.NotEq)) and isinstance(a, SV) and isinstance(b, SV) and a.ty.name == "Ref" \
+                and b.ty.name == "Ref" and C.CLASSES.get(a.ty.args[0].name, {}).get("structural_eq"):
+            # classes with a structural __eq__ (HedGroup): == is an uninterpreted reflexive relation, not identity
+            f = z3.Function("struct_eq", z3.IntSort(), z3.IntSort(), z3.BoolSort())
+            ctx.assume(z3.Implies(a.t == b.t, f(a.t, b.t)))
+            r = f(a.t, b.t)
+            return r if isinstance(op, ast.Eq) else z3.Not(r)
         if isinstance(op, ast.Eq):
             return ctx.equal(a, b)
         if isinstance(op, ast.NotEq):
